@@ -208,10 +208,33 @@ def sync_records(tier, seed):
     lt = LT.TridonicDALIUSBDriver()
     lh = LH.HassebDALIUSBDriver.__new__(LH.HassebDALIUSBDriver)
     lh.sn = 0
+
+    class HDev:                      # the HID handle: control packets (firmware version, sniffer on / off) go through it
+        def __init__(self):
+            self.written = []
+
+        def write(self, data):
+            self.written.append(list(data))
+            return len(data)
+
+        def read(self, n):
+            last = self.written[-1] if self.written else [0] * 10
+            return [0xAA, last[1], last[2], 4, 2, 0, 0, 0, 0, 0]
+    hdev = HDev()
+    lh.device = hdev
     lu = LU.UnipiDALIDriver()
     sns_t, sns_h = [], []
-    for c in cmds + all16[:800]:
+    for ci, c in enumerate(cmds + all16[:800]):
         d = drivers.describe_command(c)
+        if ci % 37 == 5:
+            # control packets share the sequence counter with the DALI frame packets
+            for fn in (lh.readFirmwareVersion, lh.enableSniffing, lh.disableSniffing)[: 1 + ci % 3]:
+                n0 = len(hdev.written)
+                try:
+                    fn()
+                except Exception:   # noqa
+                    pass
+                sns_h += [w_[2] for w_ in hdev.written[n0:]]
         for drv, obj in (("ltridonic", lt), ("lhasseb", lh), ("unipi", lu)):
             try:
                 data = obj.construct(c)
